@@ -175,20 +175,17 @@ def _shrink_and_classify(ctx, hist, tgt_op, base):
             continue
         seen.add(key)
         ops = list(h)
-        if tgt_op[0] == "relower":
-            ops = ops  # the target observation below is a plain lower; relower differences are reported unshrunk
-        r = _sub(["history", json.dumps({"ops": ops, "target": tgt_op[1]})])
-        if _strip(r["final"]) != _strip(base):
-            r2 = _sub(["history", json.dumps({"ops": ops, "target": tgt_op[1], "tmp_reset_before_target": True})])
+        r = _sub(["history", json.dumps({"ops": ops, "target": tgt_op[1], "observe": tgt_op[0]})])
+        if r["final"]["kind"] != "absent" and _strip(r["final"]) != _strip(base):
+            r2 = _sub(["history", json.dumps({"ops": ops, "target": tgt_op[1], "observe": tgt_op[0],
+                                              "tmp_reset_before_target": True})])
             tmp_only = _strip(r2["final"]) == _strip(base)
             return ops, r["final"], tmp_only
     return None, None, False
 
 
 def _report(ctx, hist, tgt_op, real, base):
-    ops, final, tmp_only = (None, None, False)
-    if tgt_op[0] == "lower":
-        ops, final, tmp_only = _shrink_and_classify(ctx, hist, tgt_op, base)
+    ops, final, tmp_only = _shrink_and_classify(ctx, hist, tgt_op, base)
     if ops is not None and tmp_only:
         ctx.violation(
             "tmp-name-order:" + tgt_op[1],
@@ -212,52 +209,63 @@ def _short(o):
     return o["kind"]
 
 
-def _run_subprocess_case(ctx, case, base_cache):
+def _judge_subprocess_case(ctx, case, r, base_cache):
     tgt = case["target"]
-    if tgt not in base_cache:
-        base_cache.update(_baselines([tgt]))
-    r = _sub(["history", json.dumps({"ops": case["ops"], "target": tgt})])
     real, base = r["final"], base_cache[tgt]
     ctx.count(["corpus", case["ops"][-3:], tgt], nontrivial=bool(case["ops"]), kind="corpus:" + real["kind"])
-    if _strip(real) != _strip(base):
+    if real["kind"] != "absent" and _strip(real) != _strip(base):
         r2 = _sub(["history", json.dumps({"ops": case["ops"], "target": tgt, "tmp_reset_before_target": True})])
         if _strip(r2["final"]) == _strip(base):
             ctx.violation("tmp-name-order:" + tgt,
                           f"Hugr of `{tgt}` depends on the session's %tmp counter (string order of generated names)",
                           {"ops": case["ops"], "target": tgt, "after_history": _strip(real), "fresh": _strip(base)})
         else:
-            ctx.violation("history:" + json.dumps([case["ops"], ["lower", tgt]]),
-                          f"`lower {tgt}` after the stored history differs from a fresh session: {_short(real)} vs {_short(base)}",
-                          {"ops": case["ops"], "target": tgt, "after_history": _strip(real), "fresh": _strip(base)})
+            ob = case.get("observe", "lower")
+            ctx.violation("history:" + json.dumps([case["ops"], [ob, tgt]]),
+                          f"`{ob} {tgt}` after the stored history differs from a fresh session: {_short(real)} vs {_short(base)}",
+                          {"ops": case["ops"], "target": tgt, "observe": ob, "after_history": _strip(real),
+                           "fresh": _strip(base)})
 
 
 # ----------------------------------------------------------------------------------------------- tie
 def tie(ctx, more: int = 1):
+    import time
+
     import c11_pool as P
     rng = ctx.rng
+    tm = ctx.extra.setdefault("timing_s", {})
+    t0 = time.time()
     base: dict = {}
-    # ---- corpus / replay first (each in its own fresh interpreter)
+    # ---- corpus / replay cases (each in its own fresh interpreter) and the fresh-process baselines, all in parallel
     cases = []
     cdir = os.path.join(vlib.VERIF, "corpus", "c11")
-    if os.path.isdir(cdir):
+    if os.path.isdir(cdir) and more == 1:
         for fn in sorted(os.listdir(cdir)):
             cases.append(json.load(open(os.path.join(cdir, fn))))
     if ctx.replay_in:
         rp = ctx.replay_in["replay"]
-        if "ops" in rp:
-            cases.append({"ops": rp["ops"], "target": rp["target"]})
-    for c in cases:
-        _run_subprocess_case(ctx, c, base)
+        cases = [{"ops": rp["ops"], "target": rp["target"], "observe": rp.get("observe", "lower")}] if "ops" in rp else []
     if ctx.replay_in:
-        return
-    # ---- fresh-process baselines
-    if ctx.quick and more == 1:
+        targets = []
+    elif ctx.quick and more == 1:
         always = ["two_tmp", "uses_f", "cexpr", "user_bad", "rec_cap", "use_struct"]
         rest = [t for t in P.TARGETS if t not in always]
-        targets = always + rng.sample(rest, 8)
+        targets = always + rng.sample(rest, 6)
     else:
         targets = list(P.TARGETS)
-    base.update(_baselines([t for t in targets if t not in base]))
+    need = sorted(set(targets) | {c["target"] for c in cases})
+    with cf.ThreadPoolExecutor(16) as ex:
+        fb = {t: ex.submit(_sub, ["fresh", t]) for t in need}
+        fc = [ex.submit(_sub, ["history", json.dumps({"ops": c["ops"], "target": c["target"],
+                                                      "observe": c.get("observe", "lower")})]) for c in cases]
+        for t, fu in fb.items():
+            base[t] = list(fu.result().values())[0]
+        case_res = [fu.result() for fu in fc]
+    for c, r in zip(cases, case_res):
+        _judge_subprocess_case(ctx, c, r, base)
+    tm["corpus+baselines"] = round(time.time() - t0, 1)
+    if ctx.replay_in:
+        return
     ctx.extra["baseline_targets"] = sorted(base)
     # ---- calibration, then a clean start for the long history
     from guppylang_internals.engine import DEF_STORE, ENGINE
@@ -286,6 +294,7 @@ def tie(ctx, more: int = 1):
     for op in opsA:
         realA.append(P.run_op(op))
         probes.append(P.state_probe())
+    tm["historyA"] = round(time.time() - t0, 1)
     # ---- model on the same sequence
     f = ctx.extra.get("source_facts") or __import__("c11_translate").facts()
     req = "(name {} {} ({}) 0)".format(
@@ -306,8 +315,9 @@ def tie(ctx, more: int = 1):
             diffs.append(f"outcome real={_cls_real(real)} model={_cls_model(m_out)}")
         if pr["tmp"] != m_tmp:
             diffs.append(f"%tmp counter real={pr['tmp']} model={m_tmp}")
-        if pr["store"] - store0 != m_store:
-            diffs.append(f"DEF_STORE growth real={pr['store'] - store0} model={m_store}")
+        if pr["store"] - store0 < m_store:
+            # (only a lower bound: std structs such as Range re-register their generated methods on every check)
+            diffs.append(f"DEF_STORE growth real={pr['store'] - store0} < model={m_store}")
         if pr["tracing"] != m_tr:
             diffs.append(f"tracing real={pr['tracing']} model={m_tr}")
         if bool(pr["rebound"]) != (m_leaks > 0):
@@ -321,12 +331,14 @@ def tie(ctx, more: int = 1):
         if diffs and mism >= 3:
             break
     ctx.extra["model_ops_compared"] = len(per_op)
+    tm["model"] = round(time.time() - t0, 1)
     # ---- oracle: every observed lowering equals the fresh-process one
     _oracle(ctx, opsA, realA, base, "A")
     # ---- history B: everything, structs included (real engine only)
     opsB = [[rng.choice(kinds), rng.choice(P.TARGETS)] for _ in range(ctx.n(200, 1500) * more)]
     realB = [P.run_op(op) for op in opsB]
     _oracle(ctx, opsB, realB, base, "B", prefix=opsA)
+    tm["oracle+B"] = round(time.time() - t0, 1)
     pr = P.session_probe()
     if pr["tracing_active"] or pr["pool_names_rebound"]:
         ctx.violation("session-probe:" + json.dumps(pr, sort_keys=True),
@@ -356,6 +368,13 @@ def search(ctx, why):
     ctx.extra["search"] = "thorough-size history run (all ordered pairs + more random operations)"
     if not any(v["found"] for v in ctx.violations):
         tie(ctx, more=2)
+    if ctx.broken and not ctx.violations:
+        # vlib only reports a broken proof/correspondence when no known finding was hit in the same run; a
+        # known finding must not mask an unexplained break
+        ctx.violation("broken:" + "|".join(ctx.broken),
+                      "proof obligation or correspondence no longer checks: " + "; ".join(ctx.broken),
+                      {"broken": ctx.broken, "build_log_tail": ctx.build_log[-3000:] if not ctx.build_ok else ""},
+                      found_input=False)
 
 
 if __name__ == "__main__":
